@@ -354,6 +354,13 @@ func (m *Monitors) c17(st *Step) []Finding {
 				add("end:without-reason", fmt.Sprintf("client session %v (logged in: %v, created %v before this entry) ended through its own line %.60q", s.Id, s.LoggedIn, time.Duration(e.UnixNano-s.Created), e.Data))
 			}
 		}
+		// no nickname at all is filed under the ended session any more (neither the one it
+		// had nor one that the entry which ended it asked for)
+		for _, n := range st.After.Nicks {
+			if n.Id == s.Id && Fold(s.Nick) != n.Nick {
+				add("end:nick-still-owned", fmt.Sprintf("ended session %v owns nickname %q after its end", s.Id, n.Nick))
+			}
+		}
 		if s.Nick != "" {
 			if o, ok := st.After.NickOwner(Fold(s.Nick)); ok && o == s.Id {
 				add("end:nick-still-owned", fmt.Sprintf("ended session %v still owns %q", s.Id, s.Nick))
